@@ -154,12 +154,15 @@ void ReadRecordHeader(
             || (*Header == FileHeaderRelocRec) || (*Header == FileHeaderRRelocRec)) {
             if (fread(CPU, 1, 1, f) != 1) {
                 ChkIO(Name);
+                FormatError(Name, catgetmessage(&MsgCat, Num_FormatInvRecordHeaderMsg));
             }
             if (fread(Segment, 1, 1, f) != 1) {
                 ChkIO(Name);
+                FormatError(Name, catgetmessage(&MsgCat, Num_FormatInvRecordHeaderMsg));
             }
             if (fread(Gran, 1, 1, f) != 1) {
                 ChkIO(Name);
+                FormatError(Name, catgetmessage(&MsgCat, Num_FormatInvRecordHeaderMsg));
             }
             if ((*Segment >= SegCount) || (*Gran == 0)) {
                 FormatError(
